@@ -651,8 +651,13 @@ def check_c20(tier, seed):
         elif idx % 3 == 2:
             opts = list(reversed(opts))
         cmd = [os.path.join(ex, tool[mode])] + [x for o_ in opts for x in o_]
+        stale = idx % 2 == 1
+        if stale:   # the output paths already exist and hold more bytes than the tool is going to write
+            for f_ in (out, back):
+                with open(f_, "wb") as fh:
+                    fh.write(b"\x5a" * (n + 777))
         p = vplib.sh(cmd + [inp, out], check=False)
-        desc = "%s %s" % (" ".join(os.path.basename(x) if os.sep in x else x for x in cmd), "in-%d.bin" % n)
+        desc = "%s %s%s" % (" ".join(os.path.basename(x) if os.sep in x else x for x in cmd), "in-%d.bin" % n, " (output file existed, %d bytes)" % (n + 777) if stale else "")
         errs = []
         if p.returncode != 0:
             return [("C20/%s/legal-invocation-failed" % tool[mode], "%s: exit %d: %s" % (desc, p.returncode, (p.stdout or "")[:200]))], desc
